@@ -205,7 +205,7 @@ is weak (null checksum, neutral, zero runs, zero tail) and some data byte never 
     ];
     let part = C01Part;
     ctx.run_known_replays(&part);
-    let n = ctx.tier.pick(60_000u64, 800_000);
+    let n = ctx.tier.pick(60_000u64, 3_000_000);
     ctx.section = "both-modes".into();
     ctx.drive_proptest(&part, scenario_strategy(Modes::Both, 5).prop_map(|sc| C01Case { sc }), n, 300);
     // a focused family: unacknowledged / weak checksum / exactly one lost data segment at every position
